@@ -279,6 +279,16 @@ theorem C13_banPeer_enforced (n : Net) (t : Int) (p : Peer) (reason : Nat) (k : 
   have : ¬ (t ≥ (t + banDurationMs) / 1000 * 1000) := by simp only [banDurationMs]; omega
   simp only [this, ↓reduceIte]
 
+/-- **`BanPeer` disconnects the reported peer whether or not a ban can be
+recorded**: for ANY address — also one that is not an IP literal (a tor or
+hostname peer, `keyOf = none`: nothing is written to the store) — the peer is not
+connected afterwards. -/
+theorem C13_banPeer_disconnects_always (n : Net) (t : Int) (p : Peer) (reason : Nat) :
+    p ∉ (stepNet n t (.banPeer p reason)).connected ∧
+    (keyOf p.target = none → (stepNet n t (.banPeer p reason)).store = n.store) := by
+  simp only [stepNet, banPeer]
+  exact ⟨not_mem_afterBan _ _, fun h => step_ban_none _ _ _ _ _ h⟩
+
 /-- A banned address is refused at both doors: `outboundPeerConnected` does not
 create the peer, `handleAddPeerMsg` does not record it (and drops the socket). -/
 theorem C13_banned_refused (n : Net) (t : Int) (p : Peer) (hb : (isBanned n.store t p).2 = true) :
@@ -572,12 +582,14 @@ the models above rely: key layout and To4/To16 normalisation, default masks,
 port stripping, masked IP with the mask as given; the stored value is the Unix
 SECONDS of `now + duration`; `Status` deletes when `!now.Before(expiry)`, reading and purging inside ONE
 `walletdb.Update` (no `walletdb.View`), as `BanIPNet` and `UnbanIPNet` are one `Update` each;
-`OnVersion` tests WITNESS and CF, then `BanPeer(addr, NoCompactFilters)`,
+`OnVersion`'s service test, read by its truth table over {neither, WITNESS, CF,
+both} whatever its spelling, is the model's `!hasRequired`; then `BanPeer(addr, NoCompactFilters)`,
 `Disconnect`, return; `handleAddPeerMsg` and `outboundPeerConnected` test
 `IsBanned` before recording / creating the peer; `IsBanned` reads the store on
 every call (it touches no ChainService field but `banStore`: no memo); `IsBanned` and `BanPeer` go
 through `ParseIPNet(addr, nil)` and the store with `BanDuration`; `BanPeer`
-disconnects `PeerByAddr(addr)` and then every peer of `s.Peers()` whose address
+installs its deferred `go` before any return (so also on the parse-error path; the
+goroutine body may be a literal or a same-file helper) which disconnects `PeerByAddr(addr)` and then every peer of `s.Peers()` whose address
 parses (`ParseIPNet(sp.Addr(), nil)`) to the banned network; the other `BanPeer` calls (a set: robust against moving a call into a helper) pass
 exactly the three "provably invalid" reasons, and `GetBlock` bans for an invalid block. -/
 theorem C13_source_facts :
@@ -590,12 +602,13 @@ theorem C13_source_facts :
     Gen.Ban.fetchReadsSeconds = true ∧ Gen.Ban.statusOneTransaction = true ∧
     Gen.Ban.banOneTransaction = true ∧ Gen.Ban.unbanOneTransaction = true ∧
     Gen.Ban.reasonNoCompactFilters = reasonNoCompactFilters ∧ Gen.Ban.banDurationMs = banDurationMs ∧
-    Gen.Ban.onVersionServiceTest = true ∧ Gen.Ban.onVersionBans = true ∧ Gen.Ban.onVersionDisconnects = true ∧
-    Gen.Ban.requiredServiceFlags = ["wire.SFNodeWitness", "wire.SFNodeCF"] ∧
+    Gen.Ban.onVersionRejects = ([1, 9, 65, 73].map fun sv => toString (!hasRequired sv)) ∧
+    Gen.Ban.onVersionBans = true ∧ Gen.Ban.onVersionDisconnects = true ∧
     Gen.Ban.addPeerRefusesBanned = true ∧ Gen.Ban.outboundRefusesBanned = true ∧
     Gen.Ban.isBannedUsesStore = true ∧ Gen.Ban.isBannedFields = ["banStore"] ∧
     Gen.Ban.isBannedReturns = ["false", "false", "banStatus.Banned"] ∧
-    Gen.Ban.isBannedFirstStmt = "ipNet,err:=banman.ParseIPNet(addr,nil)" ∧ Gen.Ban.banPeerUsesStore = true ∧ Gen.Ban.banPeerDisconnects = true ∧
+    Gen.Ban.isBannedFirstStmt = "ipNet,err:=banman.ParseIPNet(addr,nil)" ∧ Gen.Ban.banPeerUsesStore = true ∧ Gen.Ban.banPeerDeferBeforeReturns = true ∧
+    Gen.Ban.banPeerDisconnects = true ∧
     Gen.Ban.banPeerDisconnectsNetwork = true ∧
     Gen.Ban.banPeerReasons = ["blockmanager.go:banman.InvalidFilterHeader",
       "blockmanager.go:banman.InvalidFilterHeaderCheckpoint", "query.go:banman.InvalidBlock"] ∧
